@@ -56,6 +56,38 @@ func init() {
 	probes["O53"] = probeO53
 	probes["O54"] = probeO54
 	probes["O55"] = probeO55
+	probes["O78"] = func() (bool, string) {
+		return guard(func() (bool, string) {
+			c, _ := ucfg.NewFrom(map[string]interface{}{"f": 0.1, "g": 0.7})
+			var to struct {
+				F float32 `validate:"max=0.1"`
+				G float32 `validate:"min=0.7"`
+			}
+			err := c.Unpack(&to)
+			return err != nil, fmt.Sprint(err)
+		})
+	}
+	probes["O79"] = func() (bool, string) {
+		return guard(func() (bool, string) {
+			type named string
+			c, _ := ucfg.NewFrom(map[string]interface{}{"s": ""})
+			var to struct {
+				S named `validate:"nonzero"`
+			}
+			err := c.Unpack(&to)
+			return err == nil, fmt.Sprint(err)
+		})
+	}
+	probes["O80"] = func() (bool, string) {
+		return guard(func() (bool, string) {
+			c, _ := ucfg.NewFrom(map[string]interface{}{"a": 1})
+			var to struct {
+				A primUnpacker `validate:"min=5"`
+			}
+			err := c.Unpack(&to)
+			return err == nil, fmt.Sprint(err)
+		})
+	}
 	probes["O77"] = func() (bool, string) {
 		return guard(func() (bool, string) {
 			c, _ := ucfg.NewFrom(map[string]interface{}{"m": map[string]interface{}{"k": []int{1, 2}}, "p": []int{3, 4}})
@@ -376,6 +408,10 @@ func probeO22() (bool, string) {
 		return err != nil || t.L != "info", fmt.Sprint(err, t)
 	})
 }
+
+type primUnpacker int
+
+func (u *primUnpacker) Unpack(i int64) error { *u = primUnpacker(i); return nil }
 
 type heldUnpacker struct{ V interface{} }
 
